@@ -155,3 +155,51 @@ def check(P: Project, R: Report) -> None:
             R.ob("R3", "client: " + o.key, o.ok, o.where, o.detail)
     R.need(n3 >= 4, "anchor: the client-side proposal/acceptance obligations were not produced")
 
+
+    # ------------------------------------------------------------------ R4: the constants the answer is built from are the ones in force
+    R.rule("R4", "the version the server falls back to is supported when it answers: if any function rebinds a module-level version constant at run time (`global CURRENT_VERSION` …), no other module uses a copy of it taken at import time (`from …versioning import CURRENT_VERSION`) — the copy keeps the old value, and the fallback answer is then a version the narrowed list no longer contains")
+    from ..tables import table_mutations
+
+    vnames = {"SUPPORTED_VERSIONS", "CURRENT_VERSION", "MINIMUM_VERSION"}
+    rebound = {}
+    for rel, line, qual, what in table_mutations(P, A.MOD_VERSION, vnames):
+        if "rebinds" in what:
+            for n_ in vnames:
+                if f"module-level {n_}" in what:
+                    rebound.setdefault(n_, (rel, line, qual))
+    # what a run-time rebinding assigns is taken from the list put in force by the same function
+    for f in P.funcs_in(A.MOD_VERSION):
+        globals_ = {x_ for n in walk_local(f.node) if isinstance(n, ast.Global) for x_ in n.names}
+        if not (globals_ & {"CURRENT_VERSION", "MINIMUM_VERSION"}):
+            continue
+        lists_ = {"SUPPORTED_VERSIONS"}
+        for n in walk_local(f.node):
+            if isinstance(n, ast.Assign) and len(n.targets) == 1 and isinstance(n.value, ast.Name):
+                t = n.targets[0]
+                if (isinstance(t, ast.Name) and t.id == "SUPPORTED_VERSIONS") or (isinstance(t, ast.Subscript) and isinstance(t.value, ast.Name) and t.value.id == "SUPPORTED_VERSIONS" and isinstance(t.slice, ast.Slice)):
+                    lists_.add(n.value.id)
+        for n in walk_local(f.node):
+            if isinstance(n, ast.Assign) and any(isinstance(t, ast.Name) and t.id in globals_ & {"CURRENT_VERSION", "MINIMUM_VERSION"} for t in n.targets):
+                v = n.value
+                ok_v = isinstance(v, ast.Subscript) and isinstance(v.value, ast.Name) and v.value.id in lists_ and not isinstance(v.slice, ast.Slice)
+                R.ob("R4", f"{f.qual}: `{ast.unparse(n)[:50]}` takes the constant from the list in force", ok_v, f"{f.module.rel}:{n.lineno}",
+                     "the constant the server falls back to is rebound to a value that is not an element of the supported list set by the same function")
+
+    stale = 0
+    for n_, (rel, line, qual) in sorted(rebound.items()):
+        for modname, m in sorted(P.modules.items()):
+            if modname == A.MOD_VERSION or not modname.startswith("chuk_mcp.server"):
+                continue  # (the answer is built by the server side; other importers are not this property's subject)
+            for local, (tm, tn) in m.imports.items():
+                if tn != n_:
+                    continue
+                kind, obj = P.resolve_name(modname, local)
+                if not (kind == "const" and obj[0].name == A.MOD_VERSION):
+                    continue
+                users = [f for f in P.funcs_in(modname) if any(isinstance(x, ast.Name) and x.id == local and isinstance(x.ctx, ast.Load) for x in walk_local(f.node))]
+                for f in users:
+                    stale += 1
+                    R.ob("R4", f"{f.qual} reads the {n_} in force", False, f.where,
+                         f"`{qual}` ({rel}:{line}) rebinds {n_} at run time, but {m.rel} imported the name by value: `{local}` here is still the value from import time — after the supported list has been narrowed the server answers (and records) a version it no longer supports")
+    R.ob("R4", "no stale import-time copy of a version constant that is rebound at run time", stale == 0, P.module(A.MOD_VERSION).rel + ":1", f"rebound at run time: {sorted(rebound) or 'none'}; stale readers: {stale}",
+         sample=f"R4 version constants rebound at run time: {sorted(rebound) or 'none'}")
